@@ -4,6 +4,7 @@ use serde_json::Value;
 
 pub fn run(ctx: &Ctx) -> Option<Report> {
     Some(match ctx.property.as_str() {
+        "C01" => super::p01::run(ctx),
         "C02" => super::progprop::run(&super::p02::prop(), ctx),
         "C03" => super::p03::run(ctx),
         "C05" => super::p05::run(ctx),
@@ -19,6 +20,7 @@ pub fn run(ctx: &Ctx) -> Option<Report> {
         "C16" => super::p16::run(ctx),
         "C17" => super::p17::run(ctx),
         "C18" => super::p18::run(ctx),
+        "C19" => super::p19::run(ctx),
         "C20" => super::p20::run(ctx),
         _ => return None,
     })
@@ -26,6 +28,7 @@ pub fn run(ctx: &Ctx) -> Option<Report> {
 
 pub fn replay(ctx: &Ctx, case: &Value) -> Option<Report> {
     Some(match ctx.property.as_str() {
+        "C01" => super::p01::replay(ctx, case),
         "C02" => super::progprop::replay(&super::p02::prop(), ctx, case),
         "C03" => super::p03::replay(ctx, case),
         "C05" => super::p05::replay(ctx, case),
@@ -41,6 +44,7 @@ pub fn replay(ctx: &Ctx, case: &Value) -> Option<Report> {
         "C16" => super::p16::replay(ctx, case),
         "C17" => super::p17::replay(ctx, case),
         "C18" => super::p18::replay(ctx, case),
+        "C19" => super::p19::replay(ctx, case),
         "C20" => super::p20::replay(ctx, case),
         _ => return None,
     })
